@@ -18,6 +18,7 @@ class Layout:
         self.delim = rng.choice(".)")
         self.fence = rng.choice("`~")
         self.fence_len = rng.randint(3, 5)
+        self.fence_indent = 0
         self.em = rng.choice("*_")
         self.strong = rng.choice(["**", "__"])
         self.setext = rng.random() < 0.3
@@ -125,6 +126,9 @@ def gen_block(rng, depth, maxdepth, plain=False, first_in_item=False):
         lines = []
         for _ in range(rng.randint(0, 4)):
             lines.append(rng.choice(["", gen_words(rng), "  " + gen_words(rng), "# x", "> y", "- z", "*a*", "<t>", "&amp;", "``", "~~", "\\"]))
+        if rng.random() < 0.12:
+            # lines that are closing fences once the body of an INDENTED fence is de-indented (four blanks + a run)
+            lines.append(rng.choice(["    ```", "    ~~~", "     `````", "    ~~~~  "]))
         if lines and rng.random() < 0.25:
             # a run of two or three empty lines inside (or at an end of) the code: code keeps every blank line
             k = rng.randint(0, len(lines))
@@ -289,7 +293,8 @@ def p_block(b, lay, top=False):
         return ["#" * b[1] + " " + txt + (" " + "#" * b[1] if lay.atx_close else "")]
     if k == "fence":
         f = lay.fence * lay.fence_len
-        return [f + b[1]] + list(b[2]) + [f]
+        ind = " " * getattr(lay, "fence_indent", 0) if top else ""       # (top level only: inside containers extra indentation changes which item a block belongs to)
+        return [ind + f + b[1]] + [(ind + l) if l else "" for l in b[2]] + [ind + f]
     if k == "icode":
         # a tab as code indentation is used at top level only: inside containers mistune expands tabs against the
         # container prefix differently from CommonMark (known finding shared with C11)
